@@ -478,6 +478,9 @@ def prec_rule(repo, res, rule="PREC"):
 
 def run(repo, res, tier):
     prec_rule(repo, res)
+    # two within-word automata are one automaton only if every part, also the accepting states, agrees (INTERN-EQ, shared with C09)
+    from . import c09 as _c09
+    _c09.intern_eq(repo, res, identity=False)
     from vlib import rules_fieldcover as FC
     FC.fieldcover(repo, res, "dfa::Inp::get_fallback_level", "Inp", "fallback_level", "value")  # the `||` index of every kind of item is visible to the table builders
     levelfield(repo, res)
